@@ -124,9 +124,13 @@ def gen_model(rng, name="M", size=None, want=None):
                     mods.append("each %s = %s" % (a, e))
                     feats.add("array-each-attr")
                 else:
-                    # symbolic elements are accepted since e418650 / a4e134c
-                    mods.append("%s = {%s}" % (a, ", ".join(_pexpr(rng, preal_all, 1) if rng.random() < 0.5 else _num(rng)
+                    # symbolic elements compile since e418650 / a4e134c, but such a model cannot be cached
+                    # (finding C19-F3): only on request, for the separate stream
+                    sym = "array-symbolic" in want
+                    mods.append("%s = {%s}" % (a, ", ".join(_pexpr(rng, preal_all, 1) if sym and rng.random() < 0.6 else _num(rng)
                                                            for _ in range(arr))))
+                    if sym:
+                        feats.add("array-symbolic-attr")
                     feats.add("array-elementwise-attr")
             else:
                 mods.append("%s = %s" % (a, e))
@@ -340,6 +344,8 @@ def signature(m, npts=2, seed=0):
                    "aliases": sorted(v.aliases) if isinstance(v.aliases, (set, frozenset, list)) else repr(v.aliases)}
             for a in ATTRS:
                 val = getattr(v, a)
+                if isinstance(val, list) and any(isinstance(e, ca.MX) for e in val):
+                    val = ca.vertcat(*[ca.MX(e) for e in val])     # array attribute with symbolic elements
                 if isinstance(val, ca.MX):
                     # a scalar attribute of an array variable means "each": compare broadcast values
                     if val.numel() == 1 and v.symbol.numel() > 1:
